@@ -25,7 +25,7 @@ MODES = (None, "2-point", "3-point", "cs")
 
 def floors(tier):
     return {"fd_runs": 600, "stencil_points_checked": 20000, "value_comparisons": 250, "runs_active_bound_at_optimum": 250,
-            "mode:None": 100, "mode:2-point": 100, "mode:3-point": 100, "mode:cs": 40, "degenerate_side_runs": 40, "settings_leak_checks": 60, "__nontrivial__": 200}
+            "mode:None": 100, "mode:2-point": 100, "mode:3-point": 100, "mode:cs": 40, "degenerate_side_runs": 40, "settings_leak_checks": 60, "fd_restarts": 200, "problems_with_gradient_scaler": 30, "__nontrivial__": 200}
 
 
 def cases(tier, seed):
@@ -36,7 +36,8 @@ def cases(tier, seed):
         ps = gen.rand_spec(rng, (fam,), nmax=7, boxes=("mixed", "boxed", "narrow", "narrow_far", "lower", "upper", "boxed_degenerate", "boxed_degenerate", "nonneg", "unit", "zero_mixed"),
                            starts=("face", "vertex", "outward", "interior"), condmax=1e3)
         yield {"problem": ps, "maxcor": int(rng.integers(1, 9)), "eps": float(gen.pick(rng, [1e-8, 1e-6])),
-               "rel": gen.pick(rng, [None, None, 1e-7]), "maxls": int(gen.pick(rng, [5, 20]))}
+               "rel": gen.pick(rng, [None, None, 1e-7]), "maxls": int(gen.pick(rng, [5, 20])),
+               "scaler": float(np.exp(rng.uniform(np.log(1e-2), np.log(1e2)))) if i % 4 == 1 else None, "split": int(rng.integers(1, 6))}
 
 
 def run(spec):
@@ -45,6 +46,11 @@ def run(spec):
     fam = P.spec["family"]
     base = dict(maxcor=spec["maxcor"], maxls=spec["maxls"], ftol=0.0, gtol=1e-6, maxiter=400, maxfun=50000, eps=spec["eps"],
                 finite_diff_rel_step=spec["rel"], cb="never")
+    sfac = 1.0
+    if spec.get("scaler"):
+        # a gradient scaler multiplies objective and gradient inside the solver: the differencing must be unaffected
+        base["scaler"] = sfac = float(spec["scaler"])
+        out.count("problems_with_gradient_scaler")
     exact = probes.run_min(P, dict(base, jac="callable"))
     keys = set()
     degenerate = bool(np.any(P.lb == P.ub))
@@ -80,6 +86,22 @@ def run(spec):
                 out.violate("fd_solution_differs_from_exact", f"{name}: f with finite differences = {ff!r} ({tr.snap['message']}, {tr.snap['nit']} it), with the "
                             f"exact gradient = {fe!r} ({exact.snap['message']}, {exact.snap['nit']} it): relative gap {gap:.3e}", **tags)
                 break
+        # the run split in two (stopped by maxiter, continued from its result): nfev keeps counting every evaluation
+        if not spec.get("scaler"):
+            a = probes.run_min(P, dict(base, jac=mode, maxiter=spec.get("split", 2)))
+            if a.exc is None and a.snap["message"] == e2e.MESSAGES["ITER"]:
+                b = probes.run_min(P, dict(base, jac=mode), checkpoint=a.result, x0=np.array(a.result.x, dtype=float, copy=True))
+                out.count("fd_restarts")
+                if b.exc is not None:
+                    out.violate("fd_run_raised", f"{name}: restart raised {type(b.exc).__name__}: {b.exc}", exc=type(b.exc).__name__, **tags)
+                    break
+                e2e.mon_box(out, P, b, mode, dict(tags, phase="restart"))
+                if out.violations:
+                    break
+                if b.snap["nfev"] != a.snap["nfev"] + b.nf:
+                    out.violate("nfev_misses_stencil_points", f"{name}: after a restart nfev={b.snap['nfev']} but the checkpoint counted {a.snap['nfev']} and "
+                                f"{b.nf} further objective calls were made", phase="restart", **tags)
+                    break
         xe = tr.snap["x"]
         active_end = bool(np.any(((xe == P.lb) | (xe == P.ub)) & (P.lb < P.ub)))
         if active_end:
